@@ -345,7 +345,11 @@ type PathConds struct {
 
 const dnfCap = 64
 
-func NewPathConds(fn *ssa.Function) *PathConds {
+func NewPathConds(fn *ssa.Function) *PathConds { return NewPathCondsAvoiding(fn, nil) }
+
+// NewPathCondsAvoiding computes the path conditions of the sub-graph without the blocks in
+// avoid: the condition under which a block is reached WITHOUT passing through any of them.
+func NewPathCondsAvoiding(fn *ssa.Function, avoid map[*ssa.BasicBlock]bool) *PathConds {
 	pc := &PathConds{fn: fn, dnf: map[*ssa.BasicBlock]DNF{}, back: map[[2]int]bool{}}
 	if len(fn.Blocks) == 0 {
 		return pc
@@ -365,9 +369,12 @@ func NewPathConds(fn *ssa.Function) *PathConds {
 			pc.dnf[b] = DNF{Term{}}
 			continue
 		}
+		if avoid[b] {
+			continue
+		}
 		var acc DNF
 		for _, p := range b.Preds {
-			if pc.back[[2]int{p.Index, b.Index}] {
+			if pc.back[[2]int{p.Index, b.Index}] || avoid[p] {
 				continue
 			}
 			pd, ok := pc.dnf[p]
